@@ -206,6 +206,32 @@ def run(ctx):
                 continue
             _check_refresh_method(ctx, r2, r3, repo, c, cp, m, init, provs, subscribed_class_names)
 
+    # -- what is collected ONCE while a model is built (builders, the nominal builder, parameter requirements) is kept for the
+    #    model's life and converted to the current backend on every switch: it must be backend-neutral python / default-backend
+    #    data, never something computed with the backend that happened to be current at construction
+    n_neutral = 0
+    builder_funcs = []
+    for c_ in repo.all_classes():
+        if c_.name.endswith("_builder") and ("/modifiers/" in c_.relpath or c_.relpath.endswith("pdf.py")):
+            builder_funcs += [(f"{c_.name}.{m_.name}", m_) for m_ in c_.methods.values()]
+    for m_ in repo.modules.values():
+        if "/modifiers/" in m_.relpath or m_.relpath.endswith(("pdf.py", "parameters/utils.py", "parameters/paramsets.py")):
+            for q_, f_ in m_.funcs.items():
+                if q_ in ("required_parset", "_nominal_and_modifiers_from_spec", "_finalize_parameters_specs", "_create_parameters_from_spec", "reduce_paramsets_requirements"):
+                    builder_funcs.append((q_, f_))
+        if m_.relpath.endswith("parameters/paramsets.py"):
+            for c_ in m_.classes.values():
+                builder_funcs += [(f"{c_.name}.{x_.name}", x_) for x_ in c_.methods.values() if x_.name == "__init__"]
+    for label_, f_ in builder_funcs:
+        ctx.touch(f_)
+        n_neutral += 1
+        hits = [n for n in ast.walk(f_.node) if isinstance(n, ast.Call) and (A.dotted(n.func) or "").split(".")[-1] == "get_backend"]
+        hits += [n for n in ast.walk(f_.node) if isinstance(n, ast.Attribute) and A.dotted(n) in ("pyhf.tensorlib",)]
+        if hits:
+            ctx.violated(r1, f_, f"construction-time data in {label_}", f"`{label_}` runs once, while the model is built, and computes stored data with the CURRENT backend (`{A.short(hits[0], 40)}`): a model built under 32-bit precision keeps single-precision roundings in its private data for life, so after a switch it no longer evaluates like a freshly built one", expected="python values or pyhf.default_backend in construction-time code", found=A.short(hits[0], 40), node=hits[0])
+        else:
+            ctx.holds(r1, f"{f_.relpath}::{label_} [construction-time]", "backend-neutral")
+    ctx.extra["construction_time_functions"] = n_neutral
     ctx.extra["scoped_classes"] = len(classes)
     ctx.extra["subscribed_classes"] = n_sub
     ctx.extra["current_backend_attributes"] = n_cur
